@@ -4,8 +4,9 @@
 Type descriptors (no spaces).  `R` is the backing representation, used only when *parsing* a
 value (h/b = HashSet/BTreeSet/HashMap/BTreeMap: `collect()` semantics; anything else keeps the
 listed entries as they are):
-  mx<bits> mn<bits>   Max<u{bits}> / Min<u{bits}>        value: 17
-  mxi<bits> mni<bits> Max<i{bits}> / Min<i{bits}>        value: -17
+  mx<bits> mn<bits>   Max<u{bits}> / Min<u{bits}>        value: 17       (bits <= 128; `mxz`/`mnz` = usize = 64 bits)
+  mxi<bits> mni<bits> Max<i{bits}> / Min<i{bits}>        value: -17      (bits <= 128; `mxiz`/`mniz` = isize)
+  mxc mnc             Max<char> / Min<char>               value: code point (a Unicode scalar value: <= 0x10FFFF, no surrogate)
   mxb mnb             Max<bool> / Min<bool>               value: t | f
   un                  ()                                  value: u
   cf                  Conflict<u32>                       value: N | S17
@@ -26,6 +27,7 @@ Ops:
   from <A> <B> <b>              -> LatticeFrom: b converted to A
   assoc <A> <a> <b> <c>         -> <(a+b)+c> <a+(b+c)>   (both printed canonically)
   trans <A> <a> <b> <c>         -> <cmp a b> <cmp b c> <cmp a c>
+  ufatomize <h|b> <a-b,c-d|->   -> number of atoms of the UnionFind value built by these `union` calls
   atomize <A> <a>               -> atoms (each printed canonically, the list sorted) joined by `|`, `-` if none
 Canonical printing: sets sorted, maps stably sorted by key.  Anything unparsable -> bad-op.
 -/
@@ -34,8 +36,16 @@ open HvLat
 
 inductive Desc where
   | maxN (bits : Nat) | minN (bits : Nat) | maxI (bits : Nat) | minI (bits : Nat) | maxB | minB | unit | conflict
+  | maxC | minC
   | set (r : Char) | map (r : Char) (v : Desc) | withBot (t : Desc) | withTop (t : Desc)
   | pair (a b : Desc) | domPair (k v : Desc) | vec (t : Desc) | tri (a b c : Desc)
+
+/-- `char::MAX as u32` -/
+def charMax : Nat := 0x10FFFF
+
+/-- `char` = Unicode scalar values: code points up to `char::MAX` without the surrogate range.  `char`'s
+derived `Ord` is the order of the code points, so `Max<char>` is `Max` over this subset of `0..=charMax`. -/
+def isScalar (n : Nat) : Bool := n ≤ charMax && !(0xD800 ≤ n && n ≤ 0xDFFF)
 
 def Desc.ty : Desc → LTy
   | .maxN b => .maxN (2 ^ b - 1)
@@ -46,6 +56,8 @@ def Desc.ty : Desc → LTy
   | .minB => .minB
   | .unit => .unit
   | .conflict => .conflict
+  | .maxC => .maxN charMax
+  | .minC => .minN charMax
   | .set _ => .set
   | .map _ v => .map v.ty
   | .withBot t => .withBot t.ty
@@ -59,7 +71,7 @@ abbrev P (α : Type) := List Char → Option (α × List Char)
 
 def pNat : P Nat := fun cs =>
   let ds := cs.takeWhile Char.isDigit
-  if ds.isEmpty || ds.length > 12 then none else
+  if ds.isEmpty || ds.length > 40 then none else
   some (ds.foldl (fun n c => 10 * n + (c.toNat - '0'.toNat)) 0, cs.drop ds.length)
 
 def pInt : P Int := fun cs =>
@@ -92,10 +104,16 @@ partial def pDesc : P Desc := fun cs =>
   match cs with
   | 'm' :: 'x' :: 'b' :: r => some (.maxB, r)
   | 'm' :: 'n' :: 'b' :: r => some (.minB, r)
-  | 'm' :: 'x' :: 'i' :: r => do let (b, r) ← pNat r; if b == 0 || b > 64 then none else pure (.maxI b, r)
-  | 'm' :: 'n' :: 'i' :: r => do let (b, r) ← pNat r; if b == 0 || b > 64 then none else pure (.minI b, r)
-  | 'm' :: 'x' :: r => do let (b, r) ← pNat r; if b == 0 || b > 64 then none else pure (.maxN b, r)
-  | 'm' :: 'n' :: r => do let (b, r) ← pNat r; if b == 0 || b > 64 then none else pure (.minN b, r)
+  | 'm' :: 'x' :: 'c' :: r => some (.maxC, r)
+  | 'm' :: 'n' :: 'c' :: r => some (.minC, r)
+  | 'm' :: 'x' :: 'i' :: 'z' :: r => some (.maxI 64, r)
+  | 'm' :: 'n' :: 'i' :: 'z' :: r => some (.minI 64, r)
+  | 'm' :: 'x' :: 'z' :: r => some (.maxN 64, r)
+  | 'm' :: 'n' :: 'z' :: r => some (.minN 64, r)
+  | 'm' :: 'x' :: 'i' :: r => do let (b, r) ← pNat r; if b == 0 || b > 128 then none else pure (.maxI b, r)
+  | 'm' :: 'n' :: 'i' :: r => do let (b, r) ← pNat r; if b == 0 || b > 128 then none else pure (.minI b, r)
+  | 'm' :: 'x' :: r => do let (b, r) ← pNat r; if b == 0 || b > 128 then none else pure (.maxN b, r)
+  | 'm' :: 'n' :: r => do let (b, r) ← pNat r; if b == 0 || b > 128 then none else pure (.minN b, r)
   | 'u' :: 'n' :: r => some (.unit, r)
   | 'c' :: 'f' :: r => some (.conflict, r)
   | 's' :: 'e' :: 't' :: '.' :: c :: r => if "hbvaos".toList.contains c then some (.set c, r) else none
@@ -157,6 +175,8 @@ partial def pVal : (d : Desc) → P (Val d.ty)
   | .minI b => fun cs => do
     let (n, r) ← pInt cs
     if -((2 ^ (b - 1) - 1 : Nat) : Int) - 1 ≤ n ∧ n ≤ ((2 ^ (b - 1) - 1 : Nat) : Int) then pure (n, r) else none
+  | .maxC => fun cs => do let (n, r) ← pNat cs; if isScalar n then pure (n, r) else none
+  | .minC => fun cs => do let (n, r) ← pNat cs; if isScalar n then pure (n, r) else none
   | .maxB => fun cs => match cs with | 't' :: r => some (true, r) | 'f' :: r => some (false, r) | _ => none
   | .minB => fun cs => match cs with | 't' :: r => some (true, r) | 'f' :: r => some (false, r) | _ => none
   | .unit => fun cs => match cs with | 'u' :: r => some ((), r) | _ => none
@@ -277,6 +297,29 @@ def pointOp (op : String) (args : List String) : Option String :=
   | "from", ["pt", "pt", a] => (full pNat a).map toString
   | _, _ => none
 
+/-! union-find `Atomize` (union_find.rs): the number of atoms of a value built by `union` calls is the
+number of unions that joined two classes (every such union makes exactly one root a non-root, and the
+atoms are the non-root entries).  Naive partition, driver only (no theorem). -/
+def ufClass (cls : List (Nat × Nat)) (x : Nat) : Nat := (cls.lookup x).getD x
+
+def ufUnion (st : List (Nat × Nat) × Nat) (p : Nat × Nat) : List (Nat × Nat) × Nat :=
+  let ca := ufClass st.1 p.1
+  let cb := ufClass st.1 p.2
+  if ca == cb then st else
+    let cls := if (st.1.lookup p.1).isSome then st.1 else (p.1, ca) :: st.1
+    let cls := if (cls.lookup p.2).isSome then cls else (p.2, cb) :: cls
+    (cls.map (fun e => if e.2 == cb then (e.1, ca) else e), st.2 + 1)
+
+def pPairs (s : String) : Option (List (Nat × Nat)) :=
+  if s == "-" then some [] else
+  (s.splitOn ",").mapM fun p =>
+    match p.splitOn "-" with
+    | [a, b] => do
+      let x ← full pNat a
+      let y ← full pNat b
+      if a.length > 6 || b.length > 6 then none else pure (x, y)
+    | _ => none
+
 def step (line : String) : String :=
   let l := line.trimAscii.toString
   match l.splitOn " " with
@@ -328,6 +371,10 @@ def step (line : String) : String :=
         let x : Val da.ty := h ▸ vb
         pure (showVal da.ty ((lat da.ty).lfrom x))
       else none
+    | "ufatomize", [r, ps] => orBad do
+      if r != "h" && r != "b" then none else
+      let pairs ← pPairs ps
+      pure (toString (pairs.foldl ufUnion ([], 0)).2)
     | "atomize", [sa, a] => orBad do
       let ⟨t, x⟩ ← oneVal sa a
       if atomizable t then
